@@ -258,18 +258,31 @@ def availability_query(ctx, rule, crate, crs, tag=""):
             ctx.ob(rule + tag, b.key, "hint-default-false", ok and ok2, where_call(b, i),
                    "missing hint bit defaults to false and the bit comes from hint_dependencies_available")
     ctx.floor(rule + tag, "cached-dependencies shortcut in availability query", n_true, 1)
-    ctx.floor(rule + tag, "hint-bit read in availability query", n_hint, 1)
-    # any other way to produce the return value?
+    # every other way to produce the return value reads the hint bits and nothing else (`.copied().unwrap_or(false)`, or a
+    # `match bits.get(idx) { Some(&b) => b, None => false }` - the shape is not pinned, the data source is)
     for i, j, s in b.assigns():
         if s["p"]["l"] == 0 and "p" not in s["p"]:
             r = s["r"]
-            if not (r["k"] == "use" and r["o"].get("k") == "const"):
-                ctx.ob(rule + tag, b.key, "other-return-source", False, "%s:%s" % (b.file, s["line"]),
-                       "return value computed by something other than the cached-lookup / hint-bit reads")
+            if r["k"] == "use" and r["o"].get("k") == "const":
+                continue
+            lv = q.leaves(b, r["o"]) if r["k"] == "use" else (q.leaves(b, {"k": "copy", "p": r["p"]}) if r["k"] in ("ref", "copyderef") else {"unknown:rvalue"})
+            flds = {x.split(":", 1)[1].split(".")[-1] for x in lv if x.startswith(("field:", "lfield:"))}
+            okh = "hint_dependencies_available" in flds and flds <= {"hint_dependencies_available", "0"} and not any(x.startswith("unknown:") for x in lv)
+            n_hint += 1 if okh else 0
+            ctx.ob(rule + tag, b.key, "other-return-source", okh, "%s:%s" % (b.file, s["line"]),
+                   "a non-constant answer is computed from the hint bits alone (reads: %s)" % ", ".join(sorted(flds)))
     for i, t in b.calls():
-        if "p" not in t["dest"] and t["dest"]["l"] == 0 and "std::option::Option::unwrap_or" not in callee_keys(t["f"]):
-            ctx.ob(rule + tag, b.key, "other-return-source", False, where_call(b, i),
-                   "return value produced by %s" % t["f"]["path"])
+        if "p" not in t["dest"] and t["dest"]["l"] == 0:
+            lv = set()
+            for a_ in t["args"]:
+                lv |= q.leaves(b, a_)
+            flds = {x.split(":", 1)[1].split(".")[-1] for x in lv if x.startswith(("field:", "lfield:"))}
+            okh = "hint_dependencies_available" in flds and flds <= {"hint_dependencies_available", "0"}
+            n_hint += 1 if okh else 0
+            if "std::option::Option::unwrap_or" not in callee_keys(t["f"]) or not okh:
+                ctx.ob(rule + tag, b.key, "other-return-source", okh, where_call(b, i),
+                       "the answer produced by %s is computed from the hint bits alone (reads: %s)" % (t["f"]["name"], ", ".join(sorted(flds))))
+    ctx.floor(rule + tag, "hint-bit read in availability query", n_hint, 1)
 
 
 def hint_writers(ctx, rule, crate, tag=""):
